@@ -4,6 +4,7 @@ import (
 	"crypto/sha256"
 	"encoding/hex"
 	"fmt"
+	"io"
 	"os"
 	"sort"
 	"strings"
@@ -11,13 +12,21 @@ import (
 
 var wantEventDigest = os.Getenv("VERIF_EVENT_DIGEST") == "1"
 
+type lineWriter struct{ w io.Writer }
+
+func (l lineWriter) Write(b []byte) (int, error) {
+	l.w.Write(b)
+	l.w.Write([]byte("\n"))
+	return len(b), nil
+}
+
 // C01, C02: containers against plain reference models.
 
 type stdHooks struct {
 	config     func(r *Rng, tier string) Config
 	profile    func(r *Rng, cfg Config) *Profile
-	setup      func(w *World)                              // install AfterStep etc.
-	check      func(w *World, final bool) *Violation      // stride/final oracles
+	setup      func(w *World)                        // install AfterStep etc.
+	check      func(w *World, final bool) *Violation // stride/final oracles
 	nontrivial func(w *World, run *Stats, levels, slabs int) bool
 }
 
@@ -57,7 +66,16 @@ func stdProp(ps *PropSpec, h stdHooks) {
 		res.Hash = traceHash(tr)
 		if wantEventDigest {
 			// event-log hash for the determinism self-test: steps, step results, ledger I/O log, final registers
-			hh := sha256.New()
+			var hh io.Writer
+			sum := sha256.New()
+			hh = sum
+			if dump := os.Getenv("VERIF_EVENT_DUMP"); dump != "" {
+				// developer aid: the hashed event log in clear, one item per line
+				if f, err := os.Create(dump); err == nil {
+					defer f.Close()
+					hh = io.MultiWriter(sum, lineWriter{f})
+				}
+			}
 			hh.Write(tr.JSON())
 			for _, r := range w.Results {
 				hh.Write([]byte(r))
@@ -78,7 +96,7 @@ func stdProp(ps *PropSpec, h stdHooks) {
 					flush()
 					cur = e.Phase
 				}
-				x := fmt.Sprintf("%d%s%d%x|", e.Kind, e.ID, e.Len, e.Hash)
+				x := fmt.Sprintf("%d %s %d %x %s|", e.Kind, e.ID, e.Len, e.Hash, e.Phase)
 				if strings.HasPrefix(e.Phase, "commit#") {
 					phase = append(phase, x)
 				} else {
@@ -90,7 +108,7 @@ func stdProp(ps *PropSpec, h stdHooks) {
 			if viol != nil {
 				hh.Write([]byte(viol.Error()))
 			}
-			res.Digest = hex.EncodeToString(hh.Sum(nil)[:12])
+			res.Digest = hex.EncodeToString(sum.Sum(nil)[:12])
 		}
 		for k, v := range w.Ledger.FaultsFired {
 			run.Add("fault."+k, v)
